@@ -31,11 +31,20 @@ def profile(rng):
     return prof
 
 
+def build_big(seed):
+    rng = subseed(seed, 'universe-big')
+    u = U.generate_big(rng, n=rng.choice([1030, 1100]))
+    return u, [{'op': 'add', 'res': 'r0'}, {'op': 'add', 'res': 'r1'}]
+
+
 def build(seed):
+    if subseed(seed, 'big').random() < 0.003:
+        return build_big(seed)     # a hub synset with > 1000 borrowed relations
     rng = subseed(seed, 'universe')
     u = U.generate(rng, profile(rng))
     prng = subseed(seed, 'plan')
-    swarm = {'routes': prng.random() < 0.6, 'batch': prng.random() < 0.3, 'short_reads': False}
+    swarm = {'routes': prng.random() < 0.6, 'batch': prng.random() < 0.3, 'short_reads': False,
+             'external': prng.random() < 0.1}
     plan = [op for op in P.history(prng, u, prng.randint(4, 9), swarm)
             if op['op'] != 'checkpoint']
     return u, plan
